@@ -563,10 +563,15 @@ func vdrCase(c *Ctx, focus string) {
 					aliased = true
 				}
 			}
-			if (int(rep.Count) > rmEntries+linkEntries || int64(rep.Size) > rmBytes+linkBytes) && !aliased {
-				add("C14", "kill-report-exceeds-what-was-removed", fmt.Sprintf("%s reports %d entries / %d bytes, but all removals below that fork together found only %d entries / %d bytes",
-					strings.TrimPrefix(p, r.PsDir+"/"), rep.Count, rep.Size, rmEntries, rmBytes))
-			} else if int(rep.Count) > rmEntries || int64(rep.Size) > rmBytes {
+			// a directory's size is not a constant: on the scratch file system (tmpfs) it
+			// is 20 bytes per entry, martian measures it when it enumerates the
+			// directory, the seam just before the removal - by then martian may have
+			// removed entries of it one by one (each of them accounted on both sides)
+			dirDrift := int64(20 * rmEntries)
+			if (int(rep.Count) > rmEntries+linkEntries || int64(rep.Size) > rmBytes+linkBytes+dirDrift) && !aliased {
+				add("C14", "kill-report-exceeds-what-was-removed", fmt.Sprintf("%s reports %d entries / %d bytes, but all removals below that fork together found only %d entries / %d bytes (listed: %v)",
+					strings.TrimPrefix(p, r.PsDir+"/"), rep.Count, rep.Size, rmEntries, rmBytes, rep.Paths))
+			} else if int(rep.Count) > rmEntries || int64(rep.Size) > rmBytes+dirDrift {
 				// the stage left a symlink to a directory in its files directory
 				add("C14", "kill-report-counts-files-below-symlinked-directory-twice", fmt.Sprintf("%s reports %d entries / %d bytes, the removals below that fork found %d entries / %d bytes (following the removed directory symlinks: %d more entries / %d bytes): what lies below a symlinked directory is accounted under both of its names",
 					strings.TrimPrefix(p, r.PsDir+"/"), rep.Count, rep.Size, rmEntries, rmBytes, linkEntries, linkBytes))
@@ -777,6 +782,14 @@ func templateVdrProg(plan *Tape) *Prog {
 		if plan.Draw(4) == 0 {
 			pl.Retain = append(pl.Retain, ref("PRODUCE", "reca"))
 		}
+	}
+	if plan.Draw(3) == 0 {
+		// an output whose name is the beginning of another one's ("da", "data"), bound by
+		// a consumer of its own and holding no file at all (null)
+		prod.Outs = append(prod.Outs, Field{"da", txt})
+		p.NullOuts = map[string]bool{"PRODUCE.da": true}
+		p.Stages = append(p.Stages, &StageDef{Name: "PFX", SrcKind: "comp", Ins: []Field{{"f", dataT}}, Outs: []Field{{"done", intT}}})
+		pl.Calls = append(pl.Calls, &CallDef{Callee: "PFX", Id: "PFX", Binds: []Bind{{"f", ref("PRODUCE", "da"), false}}})
 	}
 	if plan.Draw(3) == 0 {
 		// the producer bound as a whole (all its outputs as one struct) to a consumer
